@@ -10,11 +10,16 @@ def build(tier, seed):
     import C13
     known = set(k['key'] for k in vf.load_known_findings() if k['property'] == 'C08')
     J = mono_jobs('C08')
-    # (reader-side faults and writer faults inside the sync loop need the stripe-level harness, which does not finish here: see DESIGN.md)
+    # reader-side faults and parity write faults inside the sync loop (one stripe of the real state_sync_process), and inside the scrub loop
+    import syncstep, C15
+    J += syncstep.jobs('C08', tier)
+    for j in C15.build(tier, seed)['jobs']:
+        if 'scrub_step' in j.name and 'faults' in j.name:
+            j.name = j.name.replace('C15/', 'C08/'); J.append(j)
     # threaded writer accounting: io_writer_step / io_write_next_thread (shared with C13)
     for j in C13.build(tier, seed)['jobs']:
         if 'writer_step' in j.name or 'write_next' in j.name:
             j.name = j.name.replace('C13/', 'C08/thread/'); J.append(j)
     return dict(jobs=J, bounds={'parity levels': '1..6 (mono layer)', 'sync step': 'see C06'},
-        assumptions=['sync step: abstract data plane and I/O contract stubs as in C06'], trusted=['cbmc 6.11.0', 'kissat'],
-        outside=['scrub loop (state_scrub_process) error handling', 'late reporting of writer errors by the threaded layer across several stripes (needs > 1 stripe)'])
+        assumptions=syncstep.ASSUMPTIONS + ['scrub step: same data plane, real state_scrub_process / scrub_data_reader / scrub_parity_reader (see C15)'], trusted=['cbmc 6.11.0', 'kissat'],
+        outside=['more than one stripe per run: the error limit, the attribution of late writer errors to stripes', 'parity read errors inside the on-the-fly recovery of sync are modelled only through the contract stub of parity_read (no fault injected there)'])
